@@ -123,6 +123,15 @@ def cases(tier, rng, ifaces):
             out.append(run_case('echo', 'std', text, 'RUN-longmnemonic'))
             out.append(proc_case('echo', 256, text, [7] * 10, 'PROC-longmnemonic'))
             out.append(Case(f'PARSE echo - {hx(text)}', no_crash, {'kind': 'PARSE-longmnemonic'}))
+    # every parameter type x every kind of program data x lengths around small powers of two (scratch buffers in conversions)
+    lens = [1, 2, 3, 4, 5, 6, 7, 8, 9, 12, 13, 15, 16, 17, 24, 25, 31, 32, 33, 64, 65] if tier == 'quick' else list(range(1, 70)) + [127, 128, 129, 300]
+    for ty in 'u8 i8 u16 i16 u32 i32 u64 i64 usize isize f32 f64 bool str bytes'.split():
+        for ln in lens:
+            lits = [b'A' * ln, b'on'[:1] + b'n' * (ln - 1), b'1' * ln, b'-' + b'9' * ln, b'1.' + b'5' * ln, b'1e' + b'1' * ln, b'#H' + b'F' * ln,
+                    b'#B' + b'1' * ln, b'#Q' + b'7' * ln, b'"' + b'a' * ln + b'"', b"'" + b'\xc3\xa9' * ln + b"'",
+                    b'#' + str(len(str(ln))).encode() + str(ln).encode() + b'x' * ln]
+            for lit in lits:
+                out.append(run_case('echo', 'std', b'SET:' + ty.upper().encode() + b' ' + lit + b'\n', 'RUN-paramkinds'))
     # messages longer than the buffer
     for N in (1, 2, 5, 8, 16):
         for ln in (N - 1, N, N + 1, 2 * N, 3 * N + 1):
